@@ -18,6 +18,18 @@ state-action pairs in random order, and with a sparse transition matrix):
 * the Lean side's own exact checker (`spec` op: exact PI in the model) is run on the code's
   outputs and must reproduce the Python oracle's distances digit for digit.
 
+Two further streams are judged by the exact oracle only (round 3):
+* argument forms: the same problem handed over with s_indices / a_indices as int8..int64,
+  uint8..uint64, intp, list, tuple, strided view, each in sorted / action-major / reversed /
+  shuffled pair order; R, Q as float64 / float32 / integer arrays, lists, F-ordered, non-contiguous;
+  sparse Q as csr / csc / coo / lil with int32 / int64 index arrays; beta, epsilon, max_iter, k,
+  v_init as NumPy scalars, 0-d arrays, ints, lists, tuples, float32 / int64 / strided arrays;
+* histories on ONE DiscreteDP: several solve calls (all methods, misleading v_init, large epsilon,
+  tiny max_iter) interleaved with bellman_operator / compute_greedy / evaluate_policy /
+  controlled_mc; every returned array is kept, must stay bitwise what it was when returned, is
+  re-judged after every later call, must not share memory with another kept array, an input or
+  the object's arrays; the inputs and the object's R, Q, index arrays must stay unchanged.
+
 A discrete output can legitimately differ between doubles and exact arithmetic when a
 comparison of the code is decided by rounding (an exact tie, or a gap below the noise).  The
 model reports the smallest gap met along the run (`margin`) and the binary size of the iterates
@@ -864,6 +876,8 @@ def run(ctx):
                 "{0,.25,.3,.5,.75,.9,.95,.99}, eps dyadic or decimal, v_init default or random integers, k in "
                 "{0,1,5,20}, max_iter default or 1..6; each in product form, as pairs (sorted / reversed / shuffled) "
                 "dense and sparse, solved by vi, pi, mpi, lp; thorough tier adds all 1944 DDPs of a small scope; "
+                "plus an argument-form stream (index dtypes x pair orders x array kinds x scalar kinds) and a "
+                "call-history stream on single objects, both judged by the exact oracle; "
                 "non-trivial = at least one state with two feasible actions; distinct by request line"
                 % (ctx.n(5, 6), ctx.n(4, 5)))
     ninst = ctx.n(110, 1500)
